@@ -1712,6 +1712,7 @@ class Stream(AbstractStream):
                 self._imol.copy_like(other._imol.get_phase(phase))
                 return
             else:
+                self.empty()
                 self.phases = other.phases
                 imol = other._imol
         else:
